@@ -58,6 +58,8 @@ pub enum Input {
     /// XZ only: stream header + block header generated from a grammar (sizes, flags, size
     /// fields, filter ids, property sizes all drawn from boundary sets) + payload + index + footer
     XzGrammar { seed: u64, good_crc: bool },
+    /// literal bytes (hex): inputs found by the coverage-guided fuzzer
+    Raw { hex: String },
 }
 
 #[derive(Clone, Debug, Serialize, Deserialize)]
@@ -705,6 +707,19 @@ impl Property for C06 {
             Input::XzGrammar { seed, good_crc } => {
                 obs.class("grammar");
                 xz_grammar(*seed, *good_crc)
+            }
+            Input::Raw { hex } => {
+                obs.class("fuzzer_input");
+                let h = hex.as_bytes();
+                let nib = |c: u8| -> u8 {
+                    match c {
+                        b'0'..=b'9' => c - b'0',
+                        b'a'..=b'f' => c - b'a' + 10,
+                        b'A'..=b'F' => c - b'A' + 10,
+                        _ => 0,
+                    }
+                };
+                h.chunks(2).filter(|c| c.len() == 2).map(|c| nib(c[0]) << 4 | nib(c[1])).collect()
             }
             Input::Mutated { data, ops, fix_crc } => {
                 let d = data.expand();
